@@ -74,6 +74,7 @@ type Thread struct {
 	// wokeOptional: the last wake-up from Sleep was a choice (a zero-cost sibling
 	// continuation existed and the clock did not have to advance for it)
 	wokeOptional bool
+	forcedEpoch  uint64 // epoch at which this parked poller was last force-woken by the hang guard
 
 	exited chan struct{}
 }
@@ -380,6 +381,20 @@ func (r *Runtime) scheduleFrom(t *Thread, exiting bool) {
 			menu = menu[:k]
 		}
 		if len(menu) == 0 {
+			// hang guard: before declaring a livelock, every parked poller gets one more iteration in the
+			// current state; only if all of them are idle again (nothing changed) is it a real HANG
+			forced := false
+			for _, x := range r.threads {
+				if !x.done && x.sleeping && x.parked && x.parkEpoch == r.epoch && x.forcedEpoch != r.epoch+1 {
+					x.forcedEpoch = r.epoch + 1
+					x.parked = false
+					forced = true
+				}
+			}
+			if forced {
+				r.points--
+				continue
+			}
 			alldone := true
 			for _, x := range r.threads {
 				if !x.done {
